@@ -12,6 +12,7 @@
 """Inventory handlers for Placement API."""
 
 import copy
+import math
 import operator
 
 from oslo_db import exception as db_exc
@@ -85,6 +86,10 @@ def make_inventory_object(resource_provider, resource_class, **data):
         inventory = inv_obj.Inventory(
             resource_provider=resource_provider,
             resource_class=resource_class, **data)
+        # NaN and -Infinity pass the schema's "maximum" but capacity cannot
+        # be computed from them.
+        if not math.isfinite(inventory.allocation_ratio):
+            raise ValueError('allocation_ratio must be a finite number')
     except (ValueError, TypeError) as exc:
         raise webob.exc.HTTPBadRequest(
             'Bad inventory %(class)s for resource provider '
